@@ -158,6 +158,31 @@ func usableViews(what string, vs []view) string {
 			return fmt.Sprintf("%s, but Encode() of %s of the returned object fails (%q, %v)", what, v.name, enc, err)
 		}
 	}
+	// ... and it is the object its own encoding describes: a fresh decoder of the same level
+	// fed the top-level encoding answers score and severity at every view as this object does
+	// (whatever a re-used decoder kept from earlier calls is part of that encoding)
+	if len(vs) > 0 {
+		top := vs[0]
+		enc, _ := top.encode()
+		ver := 3
+		if !strings.HasPrefix(enc, "CVSS:") {
+			ver = 2
+		}
+		fresh, ok := makeSubject(opsCase{Ver: ver, Level: int(top.level), Input: enc, NilRecv: true})
+		if !ok {
+			return fmt.Sprintf("%s, but a fresh decoder refuses the returned object's own encoding %q", what, enc)
+		}
+		fv := fresh.views()
+		if len(fv) == len(vs) {
+			for i := range vs {
+				for _, obs := range []string{"score", "severity"} {
+					if x, y := observe(vs[i], obs), observe(fv[i], obs); x != y {
+						return fmt.Sprintf("%s and the returned object encodes itself as %q, but a fresh decode of that text answers %s of %s with %s where the object answers %s", what, enc, obs, vs[i].name, y, x)
+					}
+				}
+			}
+		}
+	}
 	return ""
 }
 
